@@ -450,7 +450,7 @@ func c04Run(c *Ctx) {
 		if !run(4, 3, false, all) {
 			return
 		}
-		if !run(5, 3, false, []int{0, 4, 9}) {
+		if !run(5, 3, false, []int{0, 9}) {
 			return
 		}
 		run(4, 3, true, []int{0, 4, 8})
@@ -467,7 +467,7 @@ func init() {
 			"The reference keeps a stack of block scopes. Non-trivial: the sequence opens a block and reads or assigns inside/after it",
 		Bounds: func(tier string) map[string]any {
 			if tier == "thorough" {
-				return map[string]any{"ops": len(c04Ops(false)), "max_len_all_data_maps": 4, "max_len_3_data_maps": 5, "depth": 3, "wide_type_alphabet_len": 4, "data_maps": len(c04DataMaps())}
+				return map[string]any{"ops": len(c04Ops(false)), "max_len_all_data_maps": 4, "max_len_2_data_maps": 5, "depth": 3, "wide_type_alphabet_len": 4, "data_maps": len(c04DataMaps())}
 			}
 			return map[string]any{"ops": len(c04Ops(false)), "max_len": 4, "depth": 2, "data_maps": len(c04DataMaps())}
 		},
